@@ -22,7 +22,8 @@ META = dict(
         "divmat:site", "divmat:branch", "grm:branch", "relatedness-vector", "weighted:branch",
         "trait:site", "trait:branch", "trait-first-principles:branch",
         "gnn", "mean_descendants", "pair_coalescence_counts",
-        "ld_matrix:r2", "ldcalc:r2_matrix",
+        "ld_matrix:r2", "ld_matrix:other-stats", "ldcalc:r2_matrix", "ldcalc:r2_array",
+        "kc_distance:tree", "kc_distance:treeseq", "rf_distance", "negative-arguments",
         "refinement", "window-shortcuts",
         "threads:num_threads", "threads:gnn", "threads:concurrent-runs",
         "tsan:runs",
